@@ -69,7 +69,10 @@ fn run_smol() -> i32 {
 /// C19 bulk: 128 pipelined 8 KiB calls in ONE flush (1 MiB, several kernel writes) followed by a small call,
 /// peer reading concurrently: every call must arrive intact and in order.
 fn bulk_calls() -> Vec<M> {
-    let mut v: Vec<M> = (0..128).map(|i| M::Big { s: format!("{i:04}{}", "y".repeat(8 * 1024)) }).collect();
+    // a small message first (so that the runtime has observed the socket's write readiness once: a fast path that
+    // tries a non-blocking write only takes effect then), the pipelined bulk, a small message last
+    let mut v: Vec<M> = vec![M::Small { n: 1 }];
+    v.extend((0..128).map(|i| M::Big { s: format!("{i:04}{}", "y".repeat(8 * 1024)) }));
     v.push(M::Small { n: 4242 });
     v
 }
@@ -96,8 +99,11 @@ fn bulk_tokio() -> i32 {
         let mut conn = zlink_tokio::Connection::new(zlink_tokio::unix::Stream::from(a));
         let reader = tokio::task::spawn_local(async move { let mut v = Vec::new(); let _ = b.read_to_end(&mut v).await; v });
         let calls = bulk_calls();
-        for c in &calls[..128] { conn.enqueue_call(&zlink_tokio::Call::new(c)).unwrap(); }
-        let r = tokio::time::timeout(Duration::from_secs(20), async { conn.flush().await?; conn.send_call(&zlink_tokio::Call::new(&calls[128])).await }).await;
+        let r0 = tokio::time::timeout(Duration::from_secs(20), conn.send_call(&zlink_tokio::Call::new(&calls[0]))).await;
+        tokio::task::yield_now().await;
+        for c in &calls[1..129] { conn.enqueue_call(&zlink_tokio::Call::new(c)).unwrap(); }
+        let r = tokio::time::timeout(Duration::from_secs(20), async { conn.flush().await?; conn.send_call(&zlink_tokio::Call::new(&calls[129])).await }).await;
+        println!("first small send: {r0:?}");
         println!("sender: {r:?}");
         drop(conn);
         judge_bulk(&reader.await.unwrap())
@@ -112,8 +118,11 @@ fn bulk_smol() -> i32 {
         let mut conn = zlink_smol::Connection::new(zlink_smol::unix::Stream::from(a));
         let calls = bulk_calls();
         let send = async {
-            for c in &calls[..128] { conn.enqueue_call(&zlink_smol::Call::new(c)).unwrap(); }
-            let r = async { conn.flush().await?; conn.send_call(&zlink_smol::Call::new(&calls[128])).await }.await;
+            let r0 = conn.send_call(&zlink_smol::Call::new(&calls[0])).await;
+            futures_lite::future::yield_now().await;
+            for c in &calls[1..129] { conn.enqueue_call(&zlink_smol::Call::new(c)).unwrap(); }
+            let r = async { conn.flush().await?; conn.send_call(&zlink_smol::Call::new(&calls[129])).await }.await;
+            println!("first small send: {r0:?}");
             println!("sender: {r:?}");
             drop(conn);
         };
